@@ -75,6 +75,8 @@ class C02(Prop):
                 opid += 1
                 m = rng.choice(["getnext", "getbulk"]) if sess["version"] != "v1" else "getnext"
                 op = {"id": opid, "s": 0, "op": "walk", "method": m, "oid": gen.oid_text(base), "limit": 100}
+                if rng.random() < 0.3:
+                    op["limit"] = rng.choice([1, 2, 3])  # abandoned after a few rows; the next walk starts afresh
                 if m == "getbulk":
                     op["max_rep"] = rng.choice([1, 2, 5, 20, 50])
                 ops.append(op)
@@ -131,7 +133,7 @@ class C02(Prop):
                 self._probes(run, [[ber.oid_text(o), v] for o, v in rows], shapes, bool(sess.get("user", {}).get("priv")))
                 got = res["ok"]["items"]
                 end = res["ok"]["end"]
-                for i, (o, v) in enumerate(rows):
+                for i, (o, v) in enumerate(rows[: op.get("limit", 100)]):
                     if i >= len(got):
                         out.append(V("C02.walk-wrong-value", "walk (%s) stopped before %s = %r (end %s)" % (op["method"], ber.oid_text(o), v, end if isinstance(end, str) else end["exc"] + ": " + end["msg"]), kind=v[0]))
                         break
